@@ -257,13 +257,16 @@ def generate(rng, tier):
         if rng.random() < 0.3:
             pool.append(b't@s')
         ops = []
+        pairs = []
         nstates = 1
         nops = rng.randrange(3, 40)
         # sometimes start from a list driven near the limit
         if rng.random() < 0.4:
             n = rng.choice([30, 31, 32])
             ops.append('from ' + hx(b','.join(b'k%d=v%d' % (i, i) for i in range(n))))
-            pool.append(b'k%d' % rng.randrange(n))
+            j = rng.randrange(n)
+            pool.append(b'k%d' % j)
+            pairs.append((b'k%d' % j, b'v%d' % j))
             nstates += 1
         for _k in range(nops):
             r = rng.random()
@@ -271,7 +274,15 @@ def generate(rng, tier):
             if r < 0.12:
                 ops.append('from ' + hx(rheader(rng, pool))); nstates += 1
             elif r < 0.55:
-                ops.append(f'set {i} {hx(rkey(rng, pool))} {hx(rval(rng))}'); nstates += 1
+                # a quarter of the Sets re-state a (key, value) pair that was set or parsed earlier in this case: the member
+                # is there already, often not in front, with exactly this value - Set still moves it to the front
+                if pairs and rng.random() < 0.25:
+                    k, v = rng.choice(pairs)
+                else:
+                    k, v = rkey(rng, pool), rval(rng)
+                    if rng.random() < 0.5:
+                        pairs.append((k, v))
+                ops.append(f'set {i} {hx(k)} {hx(v)}'); nstates += 1
             elif r < 0.7:
                 ops.append(f'del {i} {hx(rkey(rng, pool))}'); nstates += 1
             elif r < 0.85:
